@@ -36,9 +36,40 @@ def truthy(v):
 
 
 def run_generator(w, rep, rule, label, thunk, where):
-    before = len(cm.CodeGeneratorVal.registry)
-    ok, _ = guarded(w, rep, rule, label, thunk)
-    gens = cm.CodeGeneratorVal.registry[before:]
+    """Runs an export path with a recording CodeGenerator.  Branches on the state of the outside world (file exists,
+    time stamps: unmodelled library values) are answered False on the first run; if any was met, the path is run again
+    answering True, and what is generated must not depend on the answer (the emitted C corresponds to the equation set
+    handed in, whatever is already on disk)."""
+    asked = []
+
+    def oracle_for(ans):
+        def oracle(stub, node):
+            asked.append((getattr(node, "lineno", 0), repr(stub)))
+            return ans
+        return oracle
+    old = w.it.branch_oracle
+    sig = lambda gs: [(g.filename, [getattr(f, "fname", "?") for f in g.added], [e[0] for e in g.events]) for g in gs]
+    try:
+        # answer True first, False last: the state left behind (exported dictionaries the caller inspects) is the one of
+        # the ordinary run
+        w.it.branch_oracle = oracle_for(True)
+        before = len(cm.CodeGeneratorVal.registry)
+        ok_t, _ = guarded(w, rep, rule, label + " (library conditions answered True)", thunk) if True else (False, None)
+        gens_t = cm.CodeGeneratorVal.registry[before:]
+        met = list(asked)
+        if not met:
+            return ok_t, gens_t           # no such branch on this path: a single run decides
+        del asked[:]
+        w.it.branch_oracle = oracle_for(False)
+        before = len(cm.CodeGeneratorVal.registry)
+        ok, _ = guarded(w, rep, rule, label, thunk)
+        gens = cm.CodeGeneratorVal.registry[before:]
+        if ok and ok_t:
+            rep.check(rule, "%s: what is generated does not depend on the file system / environment (branch at line %s on %s)" % (label, met[0][0], met[0][1][:60]),
+                      sig(gens) == sig(gens_t), "with the condition true the export path generates %s instead of %s: a stale file is kept although the equation set or the options changed"
+                      % (sig(gens_t) or "nothing", [(a, len(b)) for a, b, _ in sig(gens)]), where=where)
+    finally:
+        w.it.branch_oracle = old
     return ok, gens
 
 
